@@ -103,20 +103,21 @@ theorem safe_blank (h1 : ∀ t ∈ S, t.contains 32 = true → t = [46, 32]) (hd
       cases hdot
     | cons b w'' => simp at this
 
-/-- what may follow a complete term text: the end, a blank, a closing bracket -/
-def Follow (rest : List Nat) : Prop := rest = [] ∨ ∃ r, rest = 32 :: r ∨ rest = 41 :: r
+/-- what may follow a complete term or type text: the end, a blank, a closing bracket, a comma -/
+def Follow (rest : List Nat) : Prop := rest = [] ∨ ∃ r, rest = 32 :: r ∨ rest = 41 :: r ∨ rest = 44 :: r
 
 theorem Follow.notId {rest : List Nat} (h : Follow rest) : NotIdNext rest := by
   intro c r hr
-  rcases h with rfl | ⟨r', rfl | rfl⟩
+  rcases h with rfl | ⟨r', rfl | rfl | rfl⟩
   · cases hr
   · cases hr; decide
   · cases hr; decide
+  · cases hr; decide
 
-theorem safe_rp (hrp : ∀ t ∈ S, [41].isPrefixOf t = true → t = [41] ∨ (t.drop 1).headD 0 ≠ 32 ∧ (t.drop 1).headD 0 ≠ 41)
+theorem safe_rp (hrp : ∀ t ∈ S, [41].isPrefixOf t = true → t = [41] ∨ (t.drop 1).headD 0 ≠ 32 ∧ (t.drop 1).headD 0 ≠ 41 ∧ (t.drop 1).headD 0 ≠ 44)
     {rest : List Nat} (hf : Follow rest) : SafeAfter S [41] rest := by
   intro m hm h
-  rcases hf with rfl | ⟨r, rfl | rfl⟩
+  rcases hf with rfl | ⟨r, rfl | rfl | rfl⟩
   · exact safe_nil [41] m hm h
   all_goals
     rw [take_append_gt _ _ m hm] at h
